@@ -1,5 +1,6 @@
 (* C19 — correspondence.  case = ((op ...) (ws (out ...)))
      op  = (0 kind value) write | (1 kind) read | (2 kind) peek | (3) Bytes()
+         | (9 seed total) a whole deep-buffer run regenerated and evaluated in Go
      out = (0 len) after a write | (1 value len) read/peek returned | (2 len) it panicked
          | (3 #bytes)
    kind = 0 bool 1 u8 2 i8 3 u16 4 i16 5 u32 6 i32 7 u64 8 i64 9 uint 10 int 11 f32 12 f64.
@@ -158,6 +159,10 @@ Definition prop_verdict (ws : Z) (ops : list op) (xs : list obs) : verdict :=
 
 Definition check (c : sx) : verdict :=
   match c with
+  (* a deep-buffer run evaluated in Go (harness/cmd/c19: deep): (9 seed total) -> (9 code index),
+     code 0 ok | 1 width | 3 read-back / not empty | 5 panic *)
+  | SList [SList [SList [SInt 9; SInt _; SInt _]]; SList [SInt _; SList [SList [SInt 9; SInt code; SInt _]]]] =>
+      if code =? 0 then VOk else if code =? 1 then VPropFail 1 else VPropFail 3
   | SList [SList ops; SList [SInt ws; SList outs]] =>
       match map_opt op_of ops, map_opt obs_of outs with
       | Some ops, Some xs =>
